@@ -560,9 +560,61 @@ func renderPath(p []any) string {
 // overlapping draws 2..4 paths of v related as equal / ancestor /
 // descendant / sibling / slice-overlap / growth / negative index, and
 // returns the jq path expression plus the relation classes.
+// retainScenario: write inside a container, then visit an ancestor (or a
+// slice of the parent array covering it, with any start) with a body that may
+// retain it, then write inside again (at the old place and at the place a
+// duplicate would land).
+func retainScenario(t *rapid.T, v any, ps [][]any) (string, []string, bool) {
+	var deep [][]any
+	for _, p := range ps {
+		if len(p) >= 2 {
+			deep = append(deep, p)
+		}
+	}
+	if len(deep) == 0 {
+		return "", nil, false
+	}
+	leaf := rapid.SampledFrom(deep).Draw(t, "leaf")
+	cut := rapid.IntRange(1, len(leaf)-1).Draw(t, "cut")
+	anc := leaf[:cut] // the container that will be retained
+	exprs := []string{renderPath(leaf)}
+	classes := []string{"scenario-retain"}
+	if k, ok := anc[len(anc)-1].(int); ok && k >= 0 && rapid.IntRange(0, 2).Draw(t, "useslice") > 0 {
+		s0 := rapid.IntRange(0, k).Draw(t, "s")
+		e0 := k + rapid.IntRange(1, 2).Draw(t, "e")
+		var sl [2]any
+		sl[0], sl[1] = s0, e0
+		if rapid.IntRange(0, 3).Draw(t, "open") == 0 {
+			sl[1] = nil
+		}
+		exprs = append(exprs, renderPath(append(append([]any(nil), anc[:len(anc)-1]...), sl)))
+		classes = append(classes, "slice-over")
+		// the duplicate of element k lands somewhere in s0..k+len: write there as well
+		shifted := append([]any(nil), leaf...)
+		shifted[cut-1] = k + rapid.IntRange(0, 2).Draw(t, "shift")
+		exprs = append(exprs, renderPath(leaf), renderPath(shifted))
+	} else {
+		exprs = append(exprs, renderPath(anc), renderPath(leaf))
+		classes = append(classes, "ancestor")
+		if rapid.Bool().Draw(t, "intodup") {
+			// into the copies a duplicating body creates: .anc[0]..., .anc.a...
+			for _, k := range []any{0, 1, "a", "b"} {
+				q := append(append(append([]any(nil), anc...), k), leaf[cut:]...)
+				exprs = append(exprs, renderPath(q))
+			}
+		}
+	}
+	return "(" + strings.Join(exprs, ", ") + ")", classes, true
+}
+
 func overlapping(t *rapid.T, v any) (string, []string) {
 	var ps [][]any
 	allPaths(v, nil, &ps)
+	if rapid.IntRange(0, 5).Draw(t, "scenario") == 0 {
+		if e, c, ok := retainScenario(t, v, ps); ok {
+			return e, c
+		}
+	}
 	base := rapid.SampledFrom(ps).Draw(t, "base")
 	n := rapid.IntRange(2, 4).Draw(t, "npaths")
 	exprs := []string{renderPath(base)}
@@ -665,6 +717,9 @@ var bodies = []struct{ src, class string }{
 	{"tostring", "scalar"}, {"length?", "scalar"}, {"[.[]?]", "rebuild"}, {"del(.a?)", "nested-delete"}, {".a? // .", "project"}, {"first(.[]?)", "project"}, {"[]", "const"}, {"{}", "const"},
 	{"(., 9)", "multi"}, {"(empty, 5)", "multi"}, {"select(type == \"number\")", "drop-some"}, {"if type == \"number\" then empty else . end", "drop-some"}, {"{a: .}", "embed"}, {"[[.]]", "embed"},
 	{".[0]? // 0", "project"}, {"(.a? |= 3)?", "nested-update"}, {"map_values(1)?", "nested-update"}, {". as $x | [$x, $x]", "duplicate"}, {"try error catch .", "copy"}, {"[., 1]", "embed"},
+	{". + .", "dup-elements"}, {"if type == \"array\" then . + . else . + 1 end", "dup-elements"}, {"[.[]?, .[]?]", "dup-elements"}, {"if type == \"object\" then {a: .a, b: .a} else . end", "dup-elements"},
+	{"if type == \"array\" then [.[], .[]] elif type == \"object\" then {a: .[keys[0]]?, b: .[keys[0]]?} else . + 1 end", "dup-elements"}, {"{a: .[0]?, b: .[0]?}", "dup-elements"}, {"if type == \"array\" then map(., .) else . end", "dup-elements"},
+	{"if type == \"number\" then . + 1 else . + . end", "dup-elements"}, {"if type == \"array\" then [.[0], .[0]] else . end", "dup-elements"},
 	{"if type == \"array\" then .[1:] else . end", "slice-body"}, {"if type == \"array\" then . + [0] else . end", "grow-body"}, {"if type == \"object\" then . + {z: 1} else . end", "grow-body"},
 }
 
@@ -799,7 +854,7 @@ func TestC02(t *testing.T) {
 		c.Class = kind + "/" + bodyClass + "/" + strings.Join(classes, "+")
 		hasSlice := strings.Contains(p, ":")
 		retains := bodyClass == "embed" || bodyClass == "duplicate" || bodyClass == "copy" || bodyClass == "type-switch" || bodyClass == "rebuild" || bodyClass == "multi" || bodyClass == "project" ||
-			bodyClass == "nested-delete" || bodyClass == "nested-update" || bodyClass == "slice-body" || bodyClass == "grow-body" || bodyClass == "drop-some"
+			bodyClass == "dup-elements" || bodyClass == "nested-delete" || bodyClass == "nested-update" || bodyClass == "slice-body" || bodyClass == "grow-body" || bodyClass == "drop-some"
 		if kind == "modify" && knownSlice && hasSlice && retains {
 			rec.Excluded("C02/slice-alias")
 			return
